@@ -3,6 +3,7 @@
 import hashlib
 import json
 
+from vx import refdef as rd
 from vx.explore import Monitor
 from vx.sim import Sim, st, ENGINE_COMMANDS
 
@@ -210,7 +211,9 @@ class PauseTransparent(Monitor):
             if aspect == "status":
                 sig["paused_run"] = a["status"]
                 sig["unpaused_run"] = b["status"]
-                sig["fail_command_in_definition"] = '"fail"' in json.dumps(self.scn.wf) or "fail" in json.dumps(self.scn.wf)
+                sig["fail_command_in_definition"] = any(
+                    "fail" in rd.norm_do(tr.get("do")) for t in (self.scn.wf.get("tasks") or {}).values()
+                    for tr in ((t or {}).get("next") or []))
             return [{"kind": "outcome_differs_from_unpaused_run", "sig": sig,
                      "detail": {"paused_run": a, "unpaused_run": b}}]
         return []
